@@ -26,7 +26,14 @@ def dedup_key_rule(R, prefix):
     site = R.site(ck)
     R.need(len(rets) == 1, "idiom: cache_key has %d return statements" % len(rets))
     v = rets[0]
-    elts = v.elts if isinstance(v, ast.Tuple) else None
+    elts = list(v.elts) if isinstance(v, ast.Tuple) else None
+    if elts is not None:
+        # a component may have been put into a local first
+        for i, e in enumerate(elts):
+            if isinstance(e, ast.Name):
+                vals = common.assigned_values(ck.node, e.id)
+                if len(vals) == 1 and vals[0][0] == "expr":
+                    elts[i] = vals[0][1]
     params = q.param_names(ck.node)[1:3]
     has_args = elts is not None and any(isinstance(e, ast.Call) and q.call_name(e) == "self.keygetter" and [q.src(a) for a in e.args] == params for e in elts)
     has_thread = elts is not None and any(isinstance(e, ast.Call) and q.call_name(e) in ("threading.current_thread", "threading.get_ident", "current_thread", "get_ident") for e in elts)
